@@ -113,6 +113,37 @@ def s1_held_comb(ctx, rid, fx, cls, src="self.source", sink="self.sink"):
     return n
 
 
+def s1_held_selectors(ctx, rid, fx, cls, src="self.source", assume=None):
+    """Source data fields that are combinational functions of registers (a word assembled from a shift register, a stored
+    previous beat, a flag that selects between them): every such register changes only in cycles where no token is waiting on the
+    source, i.e. each of its synchronous assignments has a guard that excludes source.valid & ~source.ready (both inlined through
+    the FSM, so the state the token is offered in is part of the formula).  `assume`: a stated restriction of the environment."""
+    regs = {a.t.split("[")[0] for a in fx.find(domain="sync")}
+    sup = set()
+    for a in fx.find(domain="comb"):
+        if a.kind not in ("eq", "connect") or not under(a.t, src) or field_of(a.t, src) in ("valid", "ready"):
+            continue
+        sup |= q.comb_closure(fx, a.value, context=a)
+        for c, _ in a.guards:
+            sup |= q.comb_closure(fx, c, context=a)
+    sel = sorted(r for r in regs if any(p_ == r or p_.startswith(r + ".") or p_.startswith(r + "[") for p_ in sup))
+    n = 0
+    for a in fx.find(domain="sync"):
+        if a.t.split("[")[0] not in sel:
+            continue
+        inl = q.Inliner(fx, a)
+        G = inl.gformula(a)
+        W = inl.inline(B.from_expr(f"{src}.valid & ~{src}.ready"))
+        A = inl.inline(assume) if assume is not None else B.T
+        ok = B.entails(G, B.Not(W), assume=A)
+        n += 1
+        ctx.ob(rid, fx.rel, cls, f"held token: {a.t} <= {short(a.v, 30)}{' @' + str(a.state[1]) if a.state else ''} not while a token waits", ok,
+               "" if ok else f"`{a.t}` feeds the data offered on `{src}` and is written under {short(B.show(G), 140)}, which can hold while "
+                             f"{src}.valid & ~{src}.ready (e.g. {B.counterexample(G, B.Not(W), assume=A)}): the offered beat changes before it is taken",
+               a.line)
+    return n
+
+
 def _valid_consulted(fx, reg):
     """The copy `reg` of a whole endpoint record is only ever used together with its own valid: `reg` is connected as a record
     (connect copies valid) or `reg.valid` is read somewhere in the class."""
